@@ -17,15 +17,17 @@ PARAMS = {
     'DebyeVib': ['debye_temperature', 'interaction_energy'],
     'RigidRotor': ['symmetrynumber', 'rot_temperatures', 'geometry'],
     'GroundStateElec': ['potentialenergy', 'spin'],
+    'LSR': ['slope', 'intercept'],
+    'ConstantMode': ['q', 'Cv', 'Cp', 'U', 'H', 'S', 'F', 'G'],
     'EmptyMode': [],
     'EmptyNucl': [],
 }
 SLOT_KINDS = {
-    'trans': ['FreeTrans', 'FreeTrans', 'EmptyMode'],
-    'vib': ['HarmonicVib', 'HarmonicVib', 'QRRHOVib', 'EinsteinVib', 'DebyeVib', 'EmptyMode'],
-    'rot': ['RigidRotor', 'RigidRotor', 'EmptyMode'],
-    'elec': ['GroundStateElec', 'GroundStateElec', 'EmptyMode'],
-    'nucl': ['EmptyNucl', 'EmptyMode'],
+    'trans': ['FreeTrans'] * 6 + ['EmptyMode'] * 3 + ['ConstantMode'],
+    'vib': ['HarmonicVib'] * 4 + ['QRRHOVib', 'EinsteinVib', 'DebyeVib', 'EmptyMode'] * 2 + ['ConstantMode'],
+    'rot': ['RigidRotor'] * 6 + ['EmptyMode'] * 3 + ['ConstantMode'],
+    'elec': ['GroundStateElec'] * 5 + ['EmptyMode'] * 2 + ['LSR'] * 2 + ['ConstantMode'],
+    'nucl': ['EmptyNucl'] * 4 + ['EmptyMode'] * 4 + ['ConstantMode'],
 }
 
 
@@ -50,7 +52,7 @@ class WorldC01(World):
     WALL = {'quick': 50, 'thorough': 560}
     STATE_CHANGING = ('mkmode', 'mkspecies', 'edit', 'swap')
     STATE_RULE = 'per species: (mode classes in its five slots, modes shared with another species, edits since construction bucket)'
-    PROBES = ('edit-imaginary-substitute', 'edit-wavenumbers', 'edit-wavenumbers-in-place', 'integer-wavenumbers', 'edit-spin', 'edit-qrrho-parameter', 'mode-shared-by-two-species',
+    PROBES = ('edit-imaginary-substitute', 'edit-wavenumbers', 'edit-wavenumbers-in-place', 'integer-wavenumbers', 'edit-spin', 'edit-qrrho-parameter', 'mode-shared-by-two-species', 'constant-mode-additivity-only', 'lsr-electronic-mode', 'textbook-harmonic-q-both-zeros',
               'swap-mode', 'imaginary-mode-present', 'monatomic-rotor', 'linear-rotor', 'trans-1-or-2-dof', 'point-group-label',
               'debye-mode', 'einstein-mode', 'qrrho-mode', 'low-T-regime', 'high-T-regime', 'verbose-sum', 'pressure-shift',
               'textbook-harmonic', 'textbook-trans', 'textbook-rotor', 'textbook-elec', 'textbook-einstein', 'textbook-debye-Cv', 'textbook-qrrho', 'geometry-rigid-motion')
@@ -86,7 +88,10 @@ class WorldC01(World):
         self.np, self.sm, self.c = np, sm, c
         self.cls = {'FreeTrans': trans.FreeTrans, 'HarmonicVib': vib.HarmonicVib, 'QRRHOVib': vib.QRRHOVib,
                     'EinsteinVib': vib.EinsteinVib, 'DebyeVib': vib.DebyeVib, 'RigidRotor': rot.RigidRotor,
-                    'GroundStateElec': elec.GroundStateElec, 'EmptyMode': sm.EmptyMode, 'EmptyNucl': nucl.EmptyNucl}
+                    'GroundStateElec': elec.GroundStateElec, 'EmptyMode': sm.EmptyMode, 'EmptyNucl': nucl.EmptyNucl,
+                    'ConstantMode': sm.ConstantMode}
+        import pmutt.statmech.lsr as lsr
+        self.cls['LSR'] = lsr.LSR
         self.rot = rot
         self.mode = {}     # id -> real mode object
         self.mk = {}       # id -> kind
@@ -124,6 +129,15 @@ class WorldC01(World):
             return {'symmetrynumber': sym, 'rot_temperatures': rt, 'geometry': geo}
         if kind == 'GroundStateElec':
             return {'potentialenergy': round(u(-40, 0), 4), 'spin': rng.choice([0, 0.5, 1, 1.5, 2])}
+        if kind == 'LSR':
+            # linear-scaling electronic energy from numbers (kcal/mol): reference binding energy, slab and gas energies
+            return {'slope': round(u(0, 1), 3), 'intercept': round(u(-10, 10), 3), 'reaction': round(u(-80, 0), 3),
+                    'surf_species': round(u(-60, 0), 3), 'gas_species': round(u(-60, 0), 3)}
+        if kind == 'ConstantMode':
+            # user-set values: nothing ties them to each other, so only the additivity clause is judged
+            return {'q': round(10 ** u(-2, 3), 4), 'Cv': round(u(0, 1e-3), 7), 'Cp': round(u(0, 1e-3), 7),
+                    'U': round(u(-2, 2), 4), 'H': round(u(-2, 2), 4), 'S': round(u(0, 2e-3), 7), 'F': round(u(-2, 2), 4),
+                    'G': round(u(-2, 2), 4)}
         return {}
 
     def gen_op(self, rng):
@@ -327,8 +341,23 @@ class WorldC01(World):
                 raise Violation('edited-equals-fresh',
                                 '%s: get_%s(T=%r) = %r after its edit history, a freshly built species with the same public '
                                 'parameters gives %r (parameters %r)' % (what, q, T, v[q], vf[q], stale))
-        # (b) identities
         tol = lambda *xs: 1e-9 * max([1.0] + [abs(x) for x in xs])
+        if 'ConstantMode' in kinds.values():
+            ctx.probe('constant-mode-additivity-only')
+            if full:
+                self._check_verbose(sp, sl, kinds, v, T, P, what, tol)
+            return 'additivity only'
+        if kinds['elec'] == 'LSR':
+            ctx.probe('lsr-electronic-mode')
+        if full:
+            # options that only say what to do about a mode lacking the getter change nothing when none lacks it
+            for q in QS:
+                v2 = float(self.real(_call, getattr(sp, 'get_' + q), T=T, P=P, raise_error=False, raise_warning=False,
+                                     _what='get_%s(raise_error=False, raise_warning=False)' % q))
+                if abs(v2 - v[q]) > 1e-12 * max(1.0, abs(v[q])):
+                    raise Violation('options-neutral', '%s: get_%s = %r, with raise_error=False, raise_warning=False %r' % (
+                        what, q, v[q], v2))
+        # (b) identities
         if abs(v['GoRT'] - (v['HoRT'] - v['SoR'])) > tol(v['HoRT'], v['SoR']):
             raise Violation('G=H-TS', '%s at T=%r: G/RT=%r, H/RT - S/R = %r' % (what, T, v['GoRT'], v['HoRT'] - v['SoR']))
         if abs(v['FoRT'] - (v['UoRT'] - v['SoR'])) > tol(v['UoRT'], v['SoR']):
@@ -373,6 +402,14 @@ class WorldC01(World):
             if abs((s2 - v['SoR']) + math.log(P2 / P)) > tol(s2, v['SoR']):
                 raise Violation('S(P)', '%s at T=%r: S(P=%r) - S(P=%r) = %r, expected %r' % (
                     what, T, P2, P, s2 - v['SoR'], -math.log(P2 / P)))
+        self._check_verbose(sp, sl, kinds, v, T, P, what, tol)
+        # (a) textbook forms of the closed-form modes
+        for slot, mid in sl.items():
+            self._textbook(mid, T, P)
+        return 'full'
+
+    def _check_verbose(self, sp, sl, kinds, v, T, P, what, tol):
+        ctx, np = self.ctx, self.np
         # verbose
         ctx.probe('verbose-sum')
         for q in QS:
@@ -392,10 +429,6 @@ class WorldC01(World):
             if math.isfinite(qt) and abs(np.prod(qv) - qt) > 1e-9 * max(abs(qt), 1e-300):
                 raise Violation('verbose-product', '%s: get_q verbose entries %r multiply to %r, total %r' % (
                     what, qv.tolist(), np.prod(qv), qt))
-        # (a) textbook forms of the closed-form modes
-        for slot, mid in sl.items():
-            self._textbook(mid, T, P)
-        return 'full'
 
     def _textbook(self, mid, T, P):
         ctx, np, c = self.ctx, self.np, self.c
@@ -417,12 +450,17 @@ class WorldC01(World):
                     'SoR': sum((xi / (math.exp(xi) - 1) if xi < 500 else 0.0) - math.log(1 - math.exp(-xi)) for xi in x)}
             want['CpoR'] = want['CvoR']
             want['HoRT'] = want['UoRT']
+            if x and sum(x) < 1000:
+                lq0 = -sum(math.log(1 - math.exp(-xi)) for xi in x)
+                want['q_noZPE'] = math.exp(lq0)                     # zero of energy at the vibrational ground state
+                want['q'] = math.exp(lq0 - 0.5 * sum(x))            # zero of energy at the bottom of the well
+                ctx.probe('textbook-harmonic-q-both-zeros')
         elif k == 'FreeTrans' and p['n_degrees'] == 3:
             ctx.probe('textbook-trans')
             mkg = p['molecular_weight'] * 1e-3 / c.Na
             lam = (2 * math.pi * mkg * c.kb('J/K') * T / c.h('J s') ** 2) ** 1.5
             V = c.kb('J/K') * T / (P * 1e5)
-            want = {'CvoR': 1.5, 'CpoR': 2.5, 'UoRT': 1.5, 'HoRT': 2.5, 'SoR': math.log(lam * V) + 2.5}
+            want = {'CvoR': 1.5, 'CpoR': 2.5, 'UoRT': 1.5, 'HoRT': 2.5, 'SoR': math.log(lam * V) + 2.5, 'q': lam * V}
         elif k == 'RigidRotor':
             ctx.probe('textbook-rotor')
             sig = p['symmetrynumber'] if not isinstance(p['symmetrynumber'], str) else POINT_GROUPS[p['symmetrynumber']]
@@ -480,7 +518,17 @@ class WorldC01(World):
         if want is None:
             return
         for q, w in want.items():
-            g = float(self.real(_call, getattr(m, 'get_' + q), T=T, P=P, _what='%s.get_%s' % (k, q)))
+            if q == 'q_noZPE':
+                g = float(self.real(m.get_q, T=T, include_ZPE=False, _what='%s.get_q(include_ZPE=False)' % k))
+            else:
+                g = float(self.real(_call, getattr(m, 'get_' + q), T=T, P=P, _what='%s.get_%s' % (k, q)))
+            if q.startswith('q'):
+                if not (1e-280 < abs(w) < 1e280):
+                    continue
+                if abs(g - w) > 1e-8 * abs(w):
+                    raise Violation('textbook-' + k, '%s with %r at T=%r P=%r: %s = %r, textbook expression = %r' % (
+                        k, p, T, P, q, g, w))
+                continue
             if abs(g - w) > 1e-8 * max(1.0, abs(w)):
                 raise Violation('textbook-' + k, '%s with %r at T=%r P=%r: get_%s = %r, textbook expression = %r' % (
                     k, p, T, P, q, g, w))
